@@ -180,6 +180,10 @@ func (h *Handler) HandleMessage(msg stanza.Message, t xmlstream.TokenReadEncoder
 
 	for i.Next() {
 		start, _ := i.Current()
+		// Skip anything that is not an element (eg. character data).
+		if start == nil {
+			continue
+		}
 		switch start.Name.Local {
 		case "received":
 			_, id := attr.Get(start.Attr, "id")
